@@ -7,7 +7,7 @@ out="$wt/OUT/$id"
 log=/tmp/seed/eval-$(basename $wt)-$id.log
 {
 echo "##### confirm $id ($crate)"
-/verif/tools/confirm_seed.sh "$wt" "$out" "$crate"
+/verif/tools/confirm_seed.sh "$wt" "$out" "$crate" $CONFIRM_ARGS
 echo "##### detect $id with $bin $*"
 cd /tmp/rvscratch/seedval/repo && git checkout -q -- . && git apply "$out/patch.diff" && git diff --stat | tail -1
 cd /tmp/rvscratch/seedval/harness && cargo build --release --offline -p "$bin" 2>&1 | grep -E "^error|Finished" | tail -2
